@@ -50,7 +50,7 @@ class CfgField(Suite):
 
     def gen_one(self, rng):
         k = rng.choice(["duration", "duration", "duration", "prefix", "prefix4", "prefix6", "hwaddr", "hwaddr", "u8", "u16", "u32", "bool",
-                        "string", "search", "strarray", "typename"])
+                        "string", "search", "strarray", "typename", "sockaddr", "sockaddr"])
         extra = ""
         r = rng.random()
         if r < 0.3:
@@ -80,6 +80,9 @@ class CfgField(Suite):
             v = "i:%d" % rng.choice(INTS)
         elif k == "bool":
             v = "b:%d" % rng.randrange(2)
+        elif k == "sockaddr":
+            v = ystr(rng.choice(["[::]:53", "192.0.2.1:8080", "/run/erbium.sock", "@abstract", "", "é", "éth0:53", "☃", " [::]:53", "@", "/", "x", "0:0", "[::1]", "1.2.3.4", "@" + "a" * 200,
+                                 "/" + "p" * 200, "a/\x00b", "::1:53"]))
         elif k in ("string", "search"):
             v = ystr(rng.choice(STRS))
         elif k == "strarray":
@@ -96,7 +99,7 @@ class CfgField(Suite):
         return obs.startswith("ok:")
 
 
-WRONG = ["[]", "{}", "null", "~", "-1", "0", "99999999999999999999", "1.5", "true", '"x"', "[[]]", "[null]", "[1, x]", "0.0.0.0/0", "10.0.0.0/7",
+WRONG = ["['']", "['é:53']", "[' x']", "[]", "{}", "null", "~", "-1", "0", "99999999999999999999", "1.5", "true", '"x"', "[[]]", "[null]", "[1, x]", "0.0.0.0/0", "10.0.0.0/7",
          "10.0.0.0/33", "::/129", "::/0", "s", "5x", "99999999999999999999s", '""', "192.0.2.0/24", "2001:db8::/64", "10.0.0.0", "10.0.0.0/x",
          "[{}]", "[{prefix: 10.0.0.0}]", "[{prefix: 10.0.0.0/x, next-hop: 10.0.0.1}]", "{start: 10.0.0.5}", "{start: 10.0.0.9, end: 10.0.0.1}",
          "255", "256", "65536", "4294967296", "-9223372036854775808", "1w", "0s", "{a: b}", "!!binary x", "&a b", "*a"]
